@@ -912,6 +912,12 @@ impl Twin {
     /// Run one command through the three paths; executors are rebuilt afterwards when changed.
     /// Returns None when the two parsers disagree about the frame (part (a) reports that).
     fn run(&mut self, inst: &Argv) -> Option<LuaCase> {
+        let (c, p) = (eval_argv(SCRIPT_CALL, inst), eval_argv(SCRIPT_PCALL, inst));
+        self.run_with(inst, &c, &p)
+    }
+
+    /// `inst` sent directly vs the two given EVAL invocations.
+    fn run_with(&mut self, inst: &Argv, call_argv: &Argv, pcall_argv: &Argv) -> Option<LuaCase> {
         let f = frame_of(inst);
         let (pa, pb) = (parse_a(&f), parse_b(&f));
         let accepted = match (&pa, &pb) {
@@ -928,8 +934,8 @@ impl Twin {
                 _ => unreachable!(),
             }
         };
-        let call = exec_argv(&mut self.c, &eval_argv(SCRIPT_CALL, inst));
-        let pcall = exec_argv(&mut self.p, &eval_argv(SCRIPT_PCALL, inst));
+        let call = exec_argv(&mut self.c, call_argv);
+        let pcall = exec_argv(&mut self.p, pcall_argv);
         let ks_direct = snapshot(&mut self.d);
         let ks_call = snapshot(&mut self.c);
         let ks_pcall = snapshot(&mut self.p);
@@ -1077,6 +1083,43 @@ struct BStats {
 }
 
 // ---------------------------------------------------------------------------------------------
+// part (c): Lua NUMBERS as command arguments
+// ---------------------------------------------------------------------------------------------
+
+/// (Lua expression, the decimal numeral a client sends for that value when it sends the command directly).
+const LUA_NUMBERS: &[(&str, &str)] = &[
+    // Lua integers: the numeral is exact
+    ("0", "0"), ("1", "1"), ("-1", "-1"), ("100", "100"), ("9223372036854775807", "9223372036854775807"), ("math.maxinteger", "9223372036854775807"), ("math.mininteger", "-9223372036854775808"),
+    // integer-valued floats up to 2^53: every convention that keeps the value writes the same digits
+    ("3.0", "3"), ("1e3", "1000"), ("10/2", "5"), ("100.0", "100"), ("2^53", "9007199254740992"), ("2^53+1.0", "9007199254740992"),
+    // floats beyond 2^53 (no exact i64 reading exists for most of them): the shortest decimal that reads back as the
+    // same double, written without exponent. An integer command must reject it or use exactly this integer.
+    ("2^63", "9223372036854776000"), ("-2^63", "-9223372036854776000"), ("9223372036854775808", "9223372036854776000"), ("math.maxinteger+1.0", "9223372036854776000"),
+    ("2^64", "18446744073709552000"), ("1e19", "10000000000000000000"), ("-1e19", "-10000000000000000000"),
+    // short binary fractions
+    ("0.5", "0.5"), ("1.5", "1.5"), ("-2.25", "-2.25"),
+];
+
+/// Command templates with one numeric position `#` (key k1, state dependent).
+const NUM_TEMPLATES: &[&str] = &[
+    "SET k1 #", "APPEND k1 #", "INCRBY k1 #", "DECRBY k1 #", "INCRBYFLOAT k1 #", "EXPIRE k1 #", "PEXPIRE k1 #", "SETEX k1 # v", "GETRANGE k1 0 #", "LINDEX k1 #",
+    "LRANGE k1 0 #", "LPUSH k1 #", "HSET k1 f #", "HINCRBY k1 a #", "ZADD k1 # m", "ZINCRBY k1 # a", "SADD k1 #", "ZRANGEBYSCORE k1 # 100", "LTRIM k1 0 #",
+];
+
+fn numeric_case(template: &str, lua_expr: &str, numeral: &str) -> (Argv, Argv, Argv) {
+    let toks: Vec<&str> = template.split(' ').collect();
+    let direct: Argv = toks.iter().map(|t| if *t == "#" { numeral.as_bytes().to_vec() } else { t.as_bytes().to_vec() }).collect();
+    // script: the key comes through KEYS[1], words as Lua strings, the number as a Lua expression
+    let args: Vec<String> = toks
+        .iter()
+        .enumerate()
+        .map(|(i, t)| if *t == "#" { format!("({lua_expr})") } else if i == 1 { "KEYS[1]".to_string() } else { format!("'{t}'") })
+        .collect();
+    let mk = |f: &str| -> Argv { vec![b"EVAL".to_vec(), format!("return redis.{f}({})", args.join(",")).into_bytes(), b"1".to_vec(), b"k1".to_vec()] };
+    (direct, mk("call"), mk("pcall"))
+}
+
+// ---------------------------------------------------------------------------------------------
 // main
 // ---------------------------------------------------------------------------------------------
 
@@ -1118,6 +1161,18 @@ fn replay(path: &std::path::Path, keywords: &BTreeSet<String>) -> ! {
                         }
                         None => false,
                     }
+                }
+            }
+        }
+        "c" => {
+            let seed: Vec<Argv> = r["seed_ops"].as_array().map(|a| a.iter().map(resp::argv_from_json).collect()).unwrap_or_default();
+            let (direct, call, pcall) = numeric_case(r["template"].as_str().unwrap(), r["lua_expr"].as_str().unwrap(), r["numeral"].as_str().unwrap());
+            let mut tw = Twin::new(&seed);
+            match tw.run_with(&direct, &call, &pcall) {
+                None => false,
+                Some(c) => {
+                    println!("{}", lua_detail(r["state"].as_str().unwrap_or("?"), &seed, &direct, &direct, &c));
+                    kind_string(&c).is_some()
                 }
             }
         }
@@ -1551,6 +1606,41 @@ fn main() {
     }
 
     timing("b2 done");
+    // ---------------------------------------------------------------- part (c): Lua numbers as arguments
+    // only commands the Lua path knows (the others are reported individually as lua-missing:<NAME>)
+    let c_templates: Vec<usize> = (0..NUM_TEMPLATES.len()).filter(|t| known.iter().any(|k| k == NUM_TEMPLATES[*t].split(' ').next().unwrap())).collect();
+    let c_items: Vec<(usize, usize, usize)> = (0..state_list.len())
+        .flat_map(|s| c_templates.iter().flat_map(move |t| (0..LUA_NUMBERS.len()).map(move |n| (s, *t, n))))
+        .collect();
+    let c_results: Vec<Option<(String, String, Value)>> = par::par_map(&c_items, |_, (si, ti, ni)| {
+        let (label, seed) = &state_list[*si];
+        let (expr, numeral) = LUA_NUMBERS[*ni];
+        let (direct, call, pcall) = numeric_case(NUM_TEMPLATES[*ti], expr, numeral);
+        let mut tw = Twin::new(seed);
+        let c = tw.run_with(&direct, &call, &pcall)?;
+        let kind = kind_string(&c)?;
+        let name = NUM_TEMPLATES[*ti].split(' ').next().unwrap();
+        let class = if numeral.contains('.') { "fraction" } else if numeral.trim_start_matches('-').len() >= 19 { "integer-near-or-beyond-i64" } else { "integer" };
+        Some((
+            format!("lua-number-arg {name} {class} {kind}"),
+            format!("state {label}: `{}` sent directly vs EVAL \"{}\" 1 k1 (Lua number {expr} = {numeral}): {}", resp::show_argv(&direct), String::from_utf8_lossy(&call[1]), lua_detail(label, seed, &direct, &direct, &c)),
+            json!({"part": "c", "state": label, "seed_ops": seed.iter().map(resp::argv_json).collect::<Vec<_>>(), "template": NUM_TEMPLATES[*ti], "lua_expr": expr, "numeral": numeral}),
+        ))
+    });
+    let c_cases = c_results.len() as u64;
+    let mut c_viol: BTreeMap<String, (String, Value, u64)> = BTreeMap::new();
+    for r in c_results.into_iter().flatten() {
+        match c_viol.get_mut(&r.0) {
+            Some(e) => e.2 += 1,
+            None => {
+                c_viol.insert(r.0, (r.1, r.2, 1));
+            }
+        }
+    }
+    for (sig, (detail, replay, count)) in &c_viol {
+        rep.violation(sig.clone(), format!("{detail} [{count} (state, template, number) cases have this signature]"), replay.clone());
+    }
+    timing("c done");
     // ---------------------------------------------------------------- evidence
     if known.is_empty() {
         rep.machinery_failure("the Lua path knows no data command at all — probe logic or source layout changed");
@@ -1562,7 +1652,7 @@ fn main() {
         { "part": "b", "state": state_list[3].0, "direct": resp::show_argv(&by_name[&known[0]][by_name[&known[0]].len() / 2]),
           "lua": format!("EVAL \"{SCRIPT_CALL}\" 0 {}", resp::show_argv(&by_name[&known[0]][by_name[&known[0]].len() / 2])) },
     ]);
-    let evaluations = a_total.frames + b.compared_accepted + b.compared_rejected;
+    let evaluations = a_total.frames + b.compared_accepted + b.compared_rejected + c_cases;
     let coverage = json!({
         "evaluations": evaluations,
         "distinct_nontrivial": a_total.nontrivial + b.compared_accepted,
@@ -1603,9 +1693,13 @@ fn main() {
         "b_cases_violating": b.violating,
         "b_distinct_command_x_reply_kinds": b.reply_kinds.len(),
         "b_drift_signatures": b.viol.len(),
+
         "deep_pools": if deep_desc.len() > 12 { json!(format!("{} commands, e.g. {}", deep_desc.len(), deep_desc[..12].join(" "))) } else { json!(deep_desc) },
         "samples": samples,
     });
+    let mut coverage = coverage;
+    coverage["c_lua_number_argument_cases"] = json!(c_cases);
+    coverage["c_signatures"] = json!(c_viol.len());
     rep.finish(
         coverage,
         vec![
@@ -1614,6 +1708,7 @@ fn main() {
             "RESP->Lua->RESP conversion demanded of the Lua path: status->{ok=}->status, integer<->integer, bulk<->string, nil bulk/nil array->false->nil bulk, array->table->array element-wise, error raised by redis.call -> error reply containing the message, error table from redis.pcall -> error reply with exactly the message; SMEMBERS/HKEYS/HVALS/KEYS/HGETALL compared as multisets".into(),
             "for frames rejected by both parsers only 'the Lua path also fails and changes nothing' is demanded, not the error text".into(),
             "the script uses (unpack or table.unpack) because the embedded Lua is 5.4; executors driven as on the simulation path: set_time(now) then execute; all paths at the same instant".into(),
+            "part (c): every (state, template, number) over 19 command templates with one numeric position and 22 Lua number expressions (Lua integers, integer-valued floats inside/outside the i64 range, short binary fractions): the script passes the Lua NUMBER, the direct twin sends the decimal numeral of exactly that value; same oracle as part (b)".into(),
             "outside part (b): server/connection/transaction/scripting commands and SPOP/RANDOMKEY (random by specification)".into(),
         ],
     );
